@@ -17,8 +17,10 @@ import (
 	"reduction.dev/reduction/dkv/sst"
 	"reduction.dev/reduction/dkv/storage"
 	"reduction.dev/reduction/partitioning"
+	"reduction.dev/reduction/proto/snapshotpb"
 	"reduction.dev/reduction/util/verifhook"
 	"verifharness/hx"
+	"verifharness/opx"
 )
 
 // ---------------------------------------------------------------- the databases under a rescale
@@ -266,6 +268,7 @@ func execMerge(p mprog, c *hx.Case) error {
 		}
 		return
 	}
+	scanOnly := false
 	checkKey := func(dbs []*dkv.DB, rs []partitioning.KeyGroupRange, k []byte, when string) error {
 		j := ownerOf(rs, int(binary.BigEndian.Uint16(k[:2])))
 		if j < 0 {
@@ -276,7 +279,7 @@ func execMerge(p mprog, c *hx.Case) error {
 		if err != nil {
 			return err
 		}
-		if gok != present || (present && !bytes.Equal(get, want)) {
+		if !scanOnly && (gok != present || (present && !bytes.Equal(get, want))) {
 			return hx.Errf("%s: Get(%q) at new operator %d (%v, restored from old ranges %v recorded as %v) = %q (present=%v), the model has %q (present=%v)", when, k, j, rs[j], from, perm, get, gok, want, present)
 		}
 		if sok != present || (present && !bytes.Equal(scan, want)) {
@@ -360,12 +363,6 @@ func execMerge(p mprog, c *hx.Case) error {
 				hasTables = true
 			}
 		}
-		if k != p.N && p.M != p.N && hasTables && c.Known("C06-remerge-of-tables-holding-foreign-keys") {
-			// open finding, excluded by construction: tables that hold other ranges'
-			// (stale) keys would be merged or split again
-			c.Label("avoided:C06-remerge-of-tables-holding-foreign-keys")
-			k = p.N
-		}
 		h2 := make([]recovery.CheckpointHandle, len(news))
 		for j, db := range news {
 			h, err := db.Checkpoint(2)()
@@ -376,6 +373,26 @@ func execMerge(p mprog, c *hx.Case) error {
 				return hx.Errf("background task failed: %v", err)
 			}
 			h2[j] = h
+		}
+		if k != p.N && p.M != p.N && hasTables && c.Known("C06-remerge-of-tables-holding-foreign-keys") {
+			// Open finding, excluded by construction: tables that hold other ranges'
+			// (stale) keys would be merged or split again. Where these checkpoints do
+			// not put intersecting tables into one sorted level the second change is
+			// explored, with prefix scans only (what an operator reads with: a scan
+			// merges every table it visits by sequence number; a point lookup stops at
+			// the first level that knows the key, which may be a stale copy).
+			var ocs []*snapshotpb.OperatorCheckpoint
+			for j, h := range h2 {
+				ocs = append(ocs, &snapshotpb.OperatorCheckpoint{CheckpointId: h.CheckpointID, DkvFileUri: h.URI,
+					KeyGroupRange: &snapshotpb.KeyGroupRange{Start: int32(to[j].Start), End: int32(to[j].End)}})
+			}
+			if opx.SortedLevelsOverlap(fs, ocs, partitioning.NewKeySpace(p.Groups, k).KeyGroupRanges()) {
+				c.Label("avoided:C06-remerge-of-tables-holding-foreign-keys")
+				k = p.N
+			} else {
+				c.Label("second-count-change-over-tables-holding-foreign-keys")
+				scanOnly = true
+			}
 		}
 		idx2 := make([]int, len(to))
 		for i := range idx2 {
@@ -438,5 +455,5 @@ func execMerge(p mprog, c *hx.Case) error {
 }
 
 func TestPropMergeRestore(t *testing.T) {
-	hx.Run(t, hx.Spec{Prop: "C06", Persist: true, Rule: "the databases under a rescale, without operators: M=1..4 dkv.DB instances own the ranges of NewKeySpace(groups, M) (groups 1..16, memtable 64 B..1 MB, small tables, drawn compaction tuning) and take 1..60 puts/deletes/waits of key-group-prefixed keys with colliding names; each is checkpointed; the handles are recorded in a drawn order and N=1..4 new instances are opened with the handles AssignRanges gives them (LoadCheckpointList merge, ownership-filtered WAL replay, sequence numbers resumed); every key is read through Get and ScanPrefix at its new owner and compared with a map model, 0..25 further writes follow (two in three return to entries written before the checkpoint, the latest first), checked after each and after compactions settled, and in half of the cases every new instance is checkpointed and restored once more, or (a quarter) checkpointed and restored into a third count K with another record order and further writes (when tables exist this second change is replaced by a same-size restore: open finding); non-trivial = M != N, a table flushed before the checkpoint and a restored key rewritten"}, genMerge, execMerge)
+	hx.Run(t, hx.Spec{Prop: "C06", Persist: true, Rule: "the databases under a rescale, without operators: M=1..4 dkv.DB instances own the ranges of NewKeySpace(groups, M) (groups 1..16, memtable 64 B..1 MB, small tables, drawn compaction tuning) and take 1..60 puts/deletes/waits of key-group-prefixed keys with colliding names; each is checkpointed; the handles are recorded in a drawn order and N=1..4 new instances are opened with the handles AssignRanges gives them (LoadCheckpointList merge, ownership-filtered WAL replay, sequence numbers resumed); every key is read through Get and ScanPrefix at its new owner and compared with a map model, 0..25 further writes follow (two in three return to entries written before the checkpoint, the latest first), checked after each and after compactions settled, and in half of the cases every new instance is checkpointed and restored once more, or (a quarter) checkpointed and restored into a third count K with another record order and further writes (where the checkpoints would put intersecting tables into one sorted level this second change is replaced by a same-size restore: open finding; elsewhere it is explored with prefix scans only); non-trivial = M != N, a table flushed before the checkpoint and a restored key rewritten"}, genMerge, execMerge)
 }
